@@ -51,6 +51,9 @@ struct Fe {
     blocking_at_fire: bool,
     /// the simulator fired another action before it had processed a single further event
     fired_in_a_batch: bool,
+    /// it was fired at the very instant at which active blocking was due to expire, before that
+    /// BlockingEnd was reported (an expiry goes first: its BlockingEnd may supersede the action)
+    fired_at_a_due_expiry: bool,
     /// a newer action or a Cancel of the action timer was returned for the machine afterwards, at this time
     overtaken_at: Option<u64>,
 }
@@ -137,6 +140,7 @@ pub fn check_timeline(c: &SimCase, run: &SimRun) -> (Vec<Viol>, Stats) {
             let f = &fires[fi];
             fi += 1;
             let any_blocking_now = sides.iter().any(|s| s.blk.is_some() || s.blk_unknown || s.premature || s.firedq.iter().flatten().any(|f| f.p.kind == 2));
+            let expiry_due_now = sides.iter().any(|s| !s.blk_unknown && !s.premature && s.blk.as_ref().map_or(false, |b| b.until == f.t && !b.zero_started) && !s.firedq.iter().flatten().any(|x| x.p.kind == 2));
             let s = &mut sides[f.client as usize];
             match &f.fired {
                 Fired::Action(a) => match pending_of(a, f.t) {
@@ -158,7 +162,7 @@ pub fn check_timeline(c: &SimCase, run: &SimRun) -> (Vec<Viol>, Stats) {
                         if m < s.firedq.len() {
                             let batch = (fi >= 2 && matches!(fires[fi - 2].fired, Fired::Action(_)) && fires[fi - 2].events_seen == f.events_seen)
                                 || (fi < fires.len() && matches!(fires[fi].fired, Fired::Action(_)) && fires[fi].events_seen == f.events_seen);
-                            s.firedq[m].push(Fe { p, blocking_at_fire: any_blocking_now, fired_in_a_batch: batch, overtaken_at: None });
+                            s.firedq[m].push(Fe { p, blocking_at_fire: any_blocking_now, fired_in_a_batch: batch, fired_at_a_due_expiry: expiry_due_now, overtaken_at: None });
                         }
                     }
                 },
@@ -242,7 +246,10 @@ pub fn check_timeline(c: &SimCase, run: &SimRun) -> (Vec<Viol>, Stats) {
                             let when = if at < fe.p.due { "before-it-was-due" } else { "at-the-instant-it-was-due" };
                             // a block takes effect when the simulator fires it (known finding K3), so what its own
                             // effect releases or ends can be reported before its BlockingBegin
-                            let ctx = if fe.fired_in_a_batch {
+                            let ctx = if fe.fired_at_a_due_expiry && fe.p.kind == 1 {
+                                // never seen on the unchanged tree: a due blocking expiry is reported before an action of that instant fires
+                                "fired-ahead-of-a-blocking-expiry-due-at-that-instant"
+                            } else if fe.fired_in_a_batch {
                                 // never seen on the unchanged tree: the event of one firing is processed before the next firing
                                 "several-actions-fired-before-any-of-their-events"
                             } else if fe.p.kind == 2 {
